@@ -420,37 +420,44 @@ Definition a_find_next (m : amm) (cb : option (bool -> V -> V -> bool)) (h : N) 
   end.
 
 Definition a_insert_with (agrow : amm -> bool -> res amm) (m : amm) (check wm : bool) (h : N) (v : V)
-  : res (N * amm) :=
-  if check && existsb (ematch (veq true v) h) (a_row m h) then Ok (LY_ERR_EEXIST, m)
-  else if negb (a_used m <? a_size m) then Err E_ABORT
-  else
-    let bk1 := upd (a_bk m) (a_bucket m h) (a_row m h ++ [(h, v)]) in
-    if a_rz m =? 0 then Ok (LY_ERR_SUCCESS, mkamm (a_rz m) bk1)
+  : res (N * V * amm) :=
+  match (if check then find (ematch (veq true v) h) (a_row m h) else None) with
+  | Some e => Ok (LY_ERR_EEXIST, snd e, m)
+  | None =>
+    if negb (a_used m <? a_size m) then Err E_ABORT
     else
-      let r := a_pct (a_used m + 1) (a_size m) in
-      let rz := if (a_rz m =? 1) && (LYHT_FIRST_SHRINK_PERCENTAGE <=? r) then 2 else a_rz m in
-      if (rz =? 2) && (LYHT_ENLARGE_PERCENTAGE <=? r) then
-        bind (agrow (mkamm rz bk1) check) (fun m3 =>
-          if wm && negb (existsb (ematch (veq false v) h) (a_row m3 h)) then Err E_ABORT
-          else Ok (LY_ERR_SUCCESS, m3))
-      else Ok (LY_ERR_SUCCESS, mkamm rz bk1).
+      let bk1 := upd (a_bk m) (a_bucket m h) (a_row m h ++ [(h, v)]) in
+      if a_rz m =? 0 then Ok (LY_ERR_SUCCESS, v, mkamm (a_rz m) bk1)
+      else
+        let r := a_pct (a_used m + 1) (a_size m) in
+        let rz := if (a_rz m =? 1) && (LYHT_FIRST_SHRINK_PERCENTAGE <=? r) then 2 else a_rz m in
+        if (rz =? 2) && (LYHT_ENLARGE_PERCENTAGE <=? r) then
+          bind (agrow (mkamm rz bk1) check) (fun m3 =>
+            if wm then
+              match find (ematch (veq false v) h) (a_row m3 h) with
+              | Some e => Ok (LY_ERR_SUCCESS, snd e, m3)
+              | None => Err E_ABORT
+              end
+            else Ok (LY_ERR_SUCCESS, v, m3))
+        else Ok (LY_ERR_SUCCESS, v, mkamm rz bk1)
+  end.
 
-Fixpoint a_reinsert (ins : amm -> N -> V -> res (N * amm)) (m : amm) (es : list (N * V)) : res amm :=
+Fixpoint a_reinsert (ins : amm -> N -> V -> res (N * V * amm)) (m : amm) (es : list (N * V)) : res amm :=
   match es with
   | [] => Ok m
   | e :: es' =>
       bind (ins m (fst e) (snd e)) (fun x =>
-        if fst x =? LY_ERR_SUCCESS then a_reinsert ins (snd x) es' else Err E_ABORT)
+        if fst (fst x) =? LY_ERR_SUCCESS then a_reinsert ins (snd x) es' else Err E_ABORT)
   end.
 
-Definition a_insert_inner (m : amm) (check : bool) (h : N) (v : V) : res (N * amm) :=
+Definition a_insert_inner (m : amm) (check : bool) (h : N) (v : V) : res (N * V * amm) :=
   a_insert_with (fun _ _ => Err E_FUEL) m check false h v.
 
 Definition a_resize (m : amm) (op : rop) (check : bool) : res amm :=
   a_reinsert (fun m' => a_insert_inner m' check)
              (mkamm (a_rz m) (repeat [] (N.to_nat (new_size (a_size m) op)))) (concat (a_bk m)).
 
-Definition a_insert (m : amm) (check wm : bool) (h : N) (v : V) : res (N * amm) :=
+Definition a_insert (m : amm) (check wm : bool) (h : N) (v : V) : res (N * V * amm) :=
   a_insert_with (fun m' c => a_resize m' Enlarge c) m check wm h v.
 
 Definition a_remove (m : amm) (h : N) (v : V) : res (N * amm) :=
@@ -527,5 +534,797 @@ Proof.
   destruct H3 as (Hc & _ & _). pose proof (is_chain_bound _ _ _ _ Hc) as Hb.
   rewrite Forall_forall in Hb. specialize (Hb _ Hi).
   destruct (rd_lt _ _ Hb) as (r & Hr). rewrite Hr. cbn [bind]. rewrite (rd_ent _ _ _ Hr). reflexivity.
+Qed.
+
+(* ------------------------------------------------------------------------------------------ *)
+(* lyht_find_next / lyht_find_next_with_collision_cb                                           *)
+(* ------------------------------------------------------------------------------------------ *)
+Lemma after_first_map {A B} (f : A -> B) (p : B -> bool) l :
+  after_first p (map f l) = option_map (map f) (after_first (fun x => p (f x)) l).
+Proof. induction l as [|x l IH]; cbn; [reflexivity|]. destruct (p (f x)); auto. Qed.
+
+Lemma find_after_first {A} (p : A -> bool) l :
+  match find p l with
+  | Some x => exists l1 l2, l = l1 ++ x :: l2 /\ after_first p l = Some l2
+  | None => after_first p l = None
+  end.
+Proof.
+  induction l as [|y l IH]; cbn; [reflexivity|]. destruct (p y) eqn:E.
+  - exists [], l. auto.
+  - destruct (find p l) as [x|]; [|exact IH].
+    destruct IH as (l1 & l2 & -> & H). exists (y :: l1), l2. auto.
+Qed.
+
+Lemma is_chain_mid recs a l1 x l2 z :
+  is_chain recs a (l1 ++ x :: l2) z -> exists n, nxt recs x = Some n /\ is_chain recs n l2 z.
+Proof.
+  intro H. apply is_chain_app in H. destruct H as (m & _ & H). cbn in H.
+  destruct H as (_ & n & Hn & H). eauto.
+Qed.
+
+Lemma Forall_app_r {A} (P : A -> Prop) l1 l2 : Forall P (l1 ++ l2) -> Forall P l2.
+Proof. intro H. apply Forall_app in H. tauto. Qed.
+
+Lemma Forall_app_l {A} (P : A -> Prop) l1 l2 : Forall P (l1 ++ l2) -> Forall P l1.
+Proof. intro H. apply Forall_app in H. tauto. Qed.
+
+Theorem lyht_find_next_sim t cs fl cb h v : Rep t cs fl ->
+  lyht_find_next veq t cb h v = Ok (a_find_next (abs t cs) cb h v).
+Proof.
+  intro R. unfold lyht_find_next, a_find_next.
+  set (eq := match cb with Some c => c | None => veq end).
+  destruct (find_rec_sim _ _ _ (eq true v) h R) as (hl & l & H1 & H2 & H3 & H4 & H5).
+  rewrite H5, H4, after_first_map. cbn [bind].
+  pose proof (find_after_first (fun i => ematch (eq true v) h (ent (ht_recs t) i)) l) as Hf.
+  destruct (find _ l) as [i|] eqn:E.
+  - destruct Hf as (l1 & l2 & -> & Ha). rewrite Ha. cbn [option_map].
+    destruct H3 as (Hc & _ & _).
+    destruct (is_chain_mid _ _ _ _ _ _ Hc) as (n & Hn & Hc2).
+    destruct (nxt_rd _ _ _ Hn) as (r & Hr & Hrn). rewrite Hr. cbn [bind]. rewrite Hrn.
+    destruct (Rep_chain_ne _ _ _ _ _ R H2) as (Hne & Hlen & _).
+    apply next_loop_chain; auto.
+    + apply Forall_app_r in Hne. now inversion Hne.
+    + rewrite app_length in Hlen. cbn in Hlen. lia.
+  - rewrite Hf. reflexivity.
+Qed.
+
+(* ------------------------------------------------------------------------------------------ *)
+(* frame lemmas                                                                                *)
+(* ------------------------------------------------------------------------------------------ *)
+Lemma bucket_ok_frame t t' b hl l :
+  bucket_ok t b hl l -> ht_size t' = ht_size t ->
+  (forall j, In j l -> nxt (ht_recs t') j = nxt (ht_recs t) j /\ ent (ht_recs t') j = ent (ht_recs t) j) ->
+  bucket_ok t' b hl l.
+Proof.
+  intros (Hc & Hl & Hh) Hs Hx. split; [|split]; auto.
+  - eapply is_chain_ext; [|exact Hc]. intros j Hj. apply Hx, Hj.
+  - rewrite Forall_forall in *. intros j Hj. rewrite Hs. destruct (Hx j Hj) as [_ ->]. auto.
+Qed.
+
+Lemma is_chain_redirect recs recs' a l x z z' :
+  is_chain recs a (l ++ [x]) z ->
+  (forall j, In j l -> nxt recs' j = nxt recs j) -> nxt recs' x = Some z' ->
+  is_chain recs' a (l ++ [x]) z'.
+Proof.
+  intros H Hx Hn. apply is_chain_app in H. destruct H as (m & H1 & H2). cbn in H2. destruct H2 as (-> & _).
+  apply is_chain_app. exists x. split.
+  - eapply is_chain_ext; [|exact H1]. exact Hx.
+  - cbn. split; [reflexivity|]. exists z'. auto.
+Qed.
+
+Lemma concat_nodup_disj {A} (cs : list (list A)) b b' l l' j :
+  NoDup (concat cs) -> nth_error cs b = Some l -> nth_error cs b' = Some l' -> b <> b' ->
+  In j l -> In j l' -> False.
+Proof.
+  revert b b'; induction cs as [|c cs IH]; intros [|b] [|b'] Hn H1 H2 Hb Hj Hj'; cbn in *;
+    try discriminate; try congruence.
+  - inversion H1; subst. eapply NoDup_app_disj; [exact Hn|exact Hj|]. eapply In_concat_nth; eauto.
+  - inversion H2; subst. eapply NoDup_app_disj; [exact Hn|exact Hj'|]. eapply In_concat_nth; eauto.
+  - apply NoDup_app_r in Hn. eapply (IH b b'); eauto.
+Qed.
+
+Lemma nth_error_upd_eq' {A} (l : list A) n x y : nth_error l n = Some y -> nth_error (upd l n x) n = Some x.
+Proof. intro H. apply nth_error_upd_eq. apply nth_error_Some. congruence. Qed.
+
+Lemma Forall_perm {A} (P : A -> Prop) l l' : Permutation l l' -> Forall P l -> Forall P l'.
+Proof.
+  intros Hp H. rewrite Forall_forall in *. intros x Hx. apply H. eapply Permutation_in; [|exact Hx].
+  now apply Permutation_sym.
+Qed.
+
+Lemma map_map_ext_in {A B} (f g : A -> B) (cs : list (list A)) :
+  (forall j, In j (concat cs) -> f j = g j) -> map (map f) cs = map (map g) cs.
+Proof.
+  intro H. apply map_ext_in. intros c Hc. apply map_ext_in. intros j Hj. apply H.
+  apply in_concat. eauto.
+Qed.
+
+(* ------------------------------------------------------------------------------------------ *)
+(* insertion of a record (no resize)                                                           *)
+(* ------------------------------------------------------------------------------------------ *)
+Lemma Rep_insert t cs fl h v ri fl' l hl n first' recs2 :
+  Rep t cs fl -> fl = ri :: fl' ->
+  nth_error cs (N.to_nat (bucket t h)) = Some l ->
+  nth_error (ht_hl t) (N.to_nat (bucket t h)) = Some hl ->
+  nxt (ht_recs t) ri = Some n ->
+  length recs2 = length (ht_recs t) ->
+  (forall j, In j (concat cs ++ fl') -> ~ In j l -> nxt recs2 j = nxt (ht_recs t) j) ->
+  (forall j, In j (concat cs) -> ent recs2 j = ent (ht_recs t) j) ->
+  is_chain recs2 first' (l ++ [ri]) NOREC -> ent recs2 ri = (h, v) ->
+  let t1 := mkht ((ht_used t + 1) mod U32) (ht_size t) (ht_resize t) n
+                 (upd (ht_hl t) (N.to_nat (bucket t h)) (mkhl first' ri)) recs2 in
+  let cs1 := upd cs (N.to_nat (bucket t h)) (l ++ [ri]) in
+  Rep t1 cs1 fl' /\
+  abs t1 cs1 = mkamm (ht_resize t)
+                 (upd (a_bk (abs t cs)) (a_bucket (abs t cs) h) (a_row (abs t cs) h ++ [(h, v)])).
+Proof.
+  intros R -> Hl Hhl Hn Hlen Hnx Hent Hch Hri t1 cs1. subst t1.
+  set (b := N.to_nat (bucket t h)) in *.
+  pose proof (Rep_size_bounds _ _ _ R) as Hsz.
+  destruct (Rep_bucket _ _ _ h R) as [Hbk Hblt].
+  assert (Hperm : Permutation (concat cs1 ++ fl') (concat cs ++ ri :: fl')).
+  { unfold cs1. rewrite (concat_upd_perm cs b l ri Hl). cbn. apply Permutation_middle. }
+  pose proof (rep_nodup _ _ _ R) as Hnd.
+  assert (Hri_cs : ~ In ri (concat cs)).
+  { intro H. eapply NoDup_app_disj; [exact Hnd|exact H|now left]. }
+  assert (Hfl_sub : forall j, In j fl' -> In j (concat cs ++ fl')) by (intros; apply in_or_app; now right).
+  assert (Hcs_sub : forall j, In j (concat cs) -> In j (concat cs ++ fl')) by (intros; apply in_or_app; now left).
+  assert (Hl_cs : forall j, In j l -> In j (concat cs)) by (intros j Hj; eapply In_concat_nth; eauto).
+  assert (Hfl_l : forall j, In j fl' -> ~ In j l).
+  { intros j Hj Hj'. eapply NoDup_app_disj; [exact Hnd|apply Hl_cs, Hj'|now right]. }
+  split.
+  - constructor; cbn [ht_size ht_recs ht_hl ht_used ht_ff].
+    + apply (rep_pow _ _ _ R).
+    + apply (rep_min _ _ _ R).
+    + rewrite Hlen. apply (rep_lr _ _ _ R).
+    + rewrite upd_length. apply (rep_lh _ _ _ R).
+    + unfold cs1. rewrite upd_length. apply (rep_lc _ _ _ R).
+    + eapply Permutation_NoDup; [apply Permutation_sym, Hperm|exact Hnd].
+    + eapply Forall_perm; [apply Permutation_sym, Hperm|apply (rep_lt _ _ _ R)].
+    + rewrite (Permutation_length Hperm). apply (rep_all _ _ _ R).
+    + intros b0 hl0 l0 H0 H0'. destruct (Nat.eq_dec b0 b) as [->|Hne].
+      * rewrite (nth_error_upd_eq' _ _ _ _ Hhl) in H0. unfold cs1 in H0'.
+        rewrite (nth_error_upd_eq' _ _ _ _ Hl) in H0'. inversion H0; inversion H0'; subst.
+        split; [exact Hch|]. split; [cbn; now rewrite last_last|].
+        apply Forall_app. split.
+        -- destruct (rep_bk _ _ _ R _ _ _ Hhl Hl) as (_ & _ & Hh). rewrite Forall_forall in *.
+           intros j Hj. cbn [ht_size ht_recs]. rewrite Hent by auto. auto.
+        -- constructor; [|constructor]. cbn [ht_size ht_recs]. rewrite Hri. cbn [fst].
+           rewrite <- Hbk. unfold b. lia.
+      * rewrite nth_error_upd_neq in H0 by auto. unfold cs1 in H0'. rewrite nth_error_upd_neq in H0' by auto.
+        pose proof (rep_bk _ _ _ R _ _ _ H0 H0') as Hok.
+        eapply bucket_ok_frame; [exact Hok|reflexivity|]. cbn [ht_recs]. intros j Hj.
+        assert (Hjc : In j (concat cs)) by (eapply In_concat_nth; eauto).
+        split; [|auto]. apply Hnx; auto. intro Hjl.
+        eapply (concat_nodup_disj cs b0 b); eauto. eapply NoDup_app_l; eauto.
+    + pose proof (rep_fl _ _ _ R) as Hf. cbn in Hf. destruct Hf as (_ & n' & Hn' & Hf).
+      assert (n' = n) by congruence. subst n'.
+      eapply is_chain_ext; [|exact Hf]. intros j Hj. apply Hnx; auto.
+    + unfold cs1. rewrite (Permutation_length (concat_upd_perm cs b l ri Hl)). cbn [length].
+      pose proof (rep_used _ _ _ R) as Hu. pose proof (rep_all _ _ _ R) as Ha.
+      rewrite app_length in Ha. cbn in Ha. rewrite Hu. unfold U32 in *.
+      rewrite N.mod_small; lia.
+  - destruct (abs_row _ _ _ h R) as (hl' & l' & E1 & E2 & _ & E4).
+    fold b in E1, E2. assert (l' = l) by congruence. subst l'.
+    rewrite (abs_bucket _ _ _ _ R). fold b. rewrite E4. unfold abs. cbn [ht_resize ht_recs a_bk]. f_equal.
+    unfold cs1. rewrite upd_map. rewrite map_app. cbn [map]. rewrite Hri.
+    rewrite (map_map_ext_in (ent recs2) (ent (ht_recs t)) cs) by exact Hent.
+    f_equal. f_equal. apply map_ext_in. intros j Hj. auto.
+Qed.
+
+Lemma list_snoc_case {A} (l : list A) : l = [] \/ exists l' x, l = l' ++ [x].
+Proof.
+  destruct l as [|y l]; [now left|right].
+  destruct (@exists_last _ (y :: l)) as (l' & x & E); [discriminate|]. eauto.
+Qed.
+
+Lemma is_chain_head_in recs a l z : l <> [] -> is_chain recs a l z -> In a l.
+Proof. destruct l as [|i l]; [congruence|]. cbn. intros _ (-> & _). now left. Qed.
+
+Lemma is_chain_single recs x z : nxt recs x = Some z -> is_chain recs x [x] z.
+Proof. intro H. cbn. split; [reflexivity|]. exists z. auto. Qed.
+
+Lemma insert_core_ok t cs fl h v : Rep t cs fl -> ht_ff t < ht_size t ->
+  exists r hl recs1 recs2 hl2 l fl',
+    rd (ht_recs t) (ht_ff t) = Ok r /\
+    rd (ht_hl t) (bucket t h) = Ok hl /\
+    (if hl_first hl =? NOREC then Ok (ht_recs t)
+     else bind (rd (ht_recs t) (hl_last hl))
+            (fun p => wr (ht_recs t) (hl_last hl) (set_next p (ht_ff t)))) = Ok recs1 /\
+    wr recs1 (ht_ff t) (mkrec h NOREC v) = Ok recs2 /\
+    wr (ht_hl t) (bucket t h)
+       (mkhl (if hl_first hl =? NOREC then ht_ff t else hl_first hl) (ht_ff t)) = Ok hl2 /\
+    fl = ht_ff t :: fl' /\ nth_error cs (N.to_nat (bucket t h)) = Some l /\
+    let t1 := mkht ((ht_used t + 1) mod U32) (ht_size t) (ht_resize t) (r_next r) hl2 recs2 in
+    let cs1 := upd cs (N.to_nat (bucket t h)) (l ++ [ht_ff t]) in
+    Rep t1 cs1 fl' /\
+    abs t1 cs1 = mkamm (ht_resize t)
+                   (upd (a_bk (abs t cs)) (a_bucket (abs t cs) h) (a_row (abs t cs) h ++ [(h, v)])) /\
+    ent recs2 (ht_ff t) = (h, v) /\ In (ht_ff t) (concat cs1).
+Proof.
+  intros R Hff.
+  pose proof (Rep_size_bounds _ _ _ R) as Hsz.
+  pose proof (rep_fl _ _ _ R) as Hfl.
+  destruct fl as [|x fl']; [cbn in Hfl; lia|].
+  cbn in Hfl. destruct Hfl as (Hx & n & Hn & Hfl'). subst x.
+  set (ri := ht_ff t) in *.
+  destruct (nxt_rd _ _ _ Hn) as (r & Hr & Hrn).
+  destruct (abs_row _ _ _ h R) as (hl & l & H1 & H2 & H3 & H4).
+  set (b := N.to_nat (bucket t h)) in *.
+  assert (Hrilt : (N.to_nat ri < length (ht_recs t))%nat) by (eapply nxt_lt; eauto).
+  pose proof (rep_nodup _ _ _ R) as Hnd.
+  assert (Hri_cs : ~ In ri (concat cs)).
+  { intro H. eapply NoDup_app_disj; [exact Hnd|exact H|now left]. }
+  assert (Hri_fl : ~ In ri fl').
+  { apply NoDup_app_r in Hnd. now inversion Hnd. }
+  assert (Hne_all : forall j, In j (concat cs ++ fl') -> j <> ri).
+  { intros j Hj ->. apply in_app_or in Hj. tauto. }
+  assert (Hl_cs : forall j, In j l -> In j (concat cs)) by (intros j Hj; eapply In_concat_nth; eauto).
+  destruct H3 as (Hc & Hlast & Hh).
+  destruct (Rep_chain_ne _ _ _ _ _ R H2) as (Hne & _ & Hndl & Hltl).
+  assert (Hblt : (b < length (ht_hl t))%nat) by (apply nth_error_Some; congruence).
+  assert (Hin1 : forall cs1, Permutation (concat cs1) (ri :: concat cs) -> In ri (concat cs1)).
+  { intros cs1 Hp. eapply Permutation_in; [apply Permutation_sym, Hp|now left]. }
+  destruct (list_snoc_case l) as [->|(l' & p & ->)].
+  - (* empty chain *)
+    cbn in Hc. cbn in Hlast.
+    exists r, hl, (ht_recs t), (upd (ht_recs t) (N.to_nat ri) (mkrec h NOREC v)),
+      (upd (ht_hl t) b (mkhl ri ri)), [], fl'.
+    rewrite Hc, N.eqb_refl.
+    split; [exact Hr|]. split; [now apply rd_Ok|]. split; [reflexivity|].
+    split; [now apply wr_Ok|]. split; [apply wr_Ok; exact Hblt|]. split; [reflexivity|]. split; [exact H2|].
+    rewrite Hrn.
+    destruct (Rep_insert t cs (ri :: fl') h v ri fl' [] hl n ri
+                (upd (ht_recs t) (N.to_nat ri) (mkrec h NOREC v)) R eq_refl H2 H1 Hn) as [Ra Rb].
+    + apply upd_length.
+    + intros j Hj _. apply nxt_upd_neq. now apply Hne_all.
+    + intros j Hj. apply ent_upd_neq. intros ->. tauto.
+    + cbn [app]. apply is_chain_single. now rewrite nxt_upd_eq.
+    + now rewrite ent_upd_eq.
+    + fold b in Ra, Rb. split; [exact Ra|]. split; [exact Rb|]. split; [now rewrite ent_upd_eq|].
+      apply Hin1. apply (concat_upd_perm cs b [] ri H2).
+  - (* append after the last record p *)
+    assert (Hp_in : In p (l' ++ [p])) by (apply in_or_app; right; now left).
+    assert (Hp_ri : p <> ri) by (intros ->; apply Hri_cs; auto).
+    assert (Hfirst : hl_first hl <> NOREC).
+    { assert (Hi : In (hl_first hl) (l' ++ [p])).
+      { eapply is_chain_head_in; [|exact Hc]. destruct l'; discriminate. }
+      rewrite Forall_forall in Hne. now apply Hne. }
+    rewrite last_last in Hlast.
+    pose proof (is_chain_bound _ _ _ _ Hc) as Hbd. rewrite Forall_forall in Hbd.
+    pose proof (Hbd _ Hp_in) as Hplt.
+    destruct (rd_lt _ _ Hplt) as (pr & Hpr).
+    set (recs1 := upd (ht_recs t) (N.to_nat p) (set_next pr ri)).
+    set (recs2 := upd recs1 (N.to_nat ri) (mkrec h NOREC v)).
+    assert (Hl1 : length recs1 = length (ht_recs t)) by apply upd_length.
+    exists r, hl, recs1, recs2, (upd (ht_hl t) b (mkhl (hl_first hl) ri)), (l' ++ [p]), fl'.
+    apply N.eqb_neq in Hfirst. rewrite Hfirst, Hlast, Hpr. cbn [bind].
+    split; [exact Hr|]. split; [now apply rd_Ok|]. split; [now apply wr_Ok|].
+    split; [apply wr_Ok; now rewrite Hl1|]. split; [apply wr_Ok; exact Hblt|]. split; [reflexivity|].
+    split; [exact H2|].
+    rewrite Hrn.
+    assert (Hri2 : ent recs2 ri = (h, v)).
+    { unfold recs2. rewrite ent_upd_eq by now rewrite Hl1. reflexivity. }
+    destruct (Rep_insert t cs (ri :: fl') h v ri fl' (l' ++ [p]) hl n (hl_first hl) recs2 R eq_refl H2 H1 Hn)
+      as [Ra Rb].
+    + unfold recs2. now rewrite upd_length.
+    + intros j Hj Hjl. unfold recs2, recs1. rewrite nxt_upd_neq by now apply Hne_all.
+      apply nxt_upd_neq. intros ->. tauto.
+    + intros j Hj. unfold recs2. rewrite ent_upd_neq by (intros ->; tauto).
+      unfold recs1. destruct (N.eq_dec j p) as [->|Hjp].
+      * rewrite ent_upd_eq by exact Hplt. cbn. symmetry. now apply rd_ent.
+      * now apply ent_upd_neq.
+    + apply is_chain_app. exists ri. split.
+      * eapply is_chain_redirect; [exact Hc| |].
+        -- intros j Hj. unfold recs2, recs1.
+           assert (Hjl : In j (l' ++ [p])) by (apply in_or_app; now left).
+           rewrite nxt_upd_neq by (intros ->; apply Hri_cs; auto).
+           apply nxt_upd_neq. intros ->.
+           eapply NoDup_app_disj; [exact Hndl|exact Hj|now left].
+        -- unfold recs2. rewrite nxt_upd_neq by exact Hp_ri. unfold recs1.
+           now rewrite nxt_upd_eq.
+      * apply is_chain_single. unfold recs2. rewrite nxt_upd_eq by now rewrite Hl1. reflexivity.
+    + exact Hri2.
+    + fold b in Ra, Rb. split; [exact Ra|]. split; [exact Rb|]. split; [exact Hri2|].
+      apply Hin1. apply (concat_upd_perm cs b (l' ++ [p]) ri H2).
+Qed.
+
+(* ------------------------------------------------------------------------------------------ *)
+(* simulation relations: concrete result vs result of the abstract function                    *)
+(* ------------------------------------------------------------------------------------------ *)
+Definition rsim (r : res ht) (a : res amm) : Prop :=
+  match a with
+  | Ok m => exists t' cs' fl', r = Ok t' /\ Rep t' cs' fl' /\ abs t' cs' = m
+  | Err e => r = Err e
+  end.
+
+(* insert: code, table, and (when match_p is given) the record index returned through *match_p
+   is a live record holding the value the abstract function names *)
+Definition isim (wm : bool) (r : res (N * N * ht)) (a : res (N * V * amm)) : Prop :=
+  match a with
+  | Ok (c, mv, m) =>
+      exists i t' cs' fl', r = Ok (c, i, t') /\ Rep t' cs' fl' /\ abs t' cs' = m /\
+        (wm = true -> In i (concat cs') /\ snd (ent (ht_recs t') i) = mv)
+  | Err e => r = Err e
+  end.
+
+Definition msim (r : res (N * ht)) (a : res (N * amm)) : Prop :=
+  match a with
+  | Ok (c, m) => exists t' cs' fl', r = Ok (c, t') /\ Rep t' cs' fl' /\ abs t' cs' = m
+  | Err e => r = Err e
+  end.
+
+(* the C assertion [first_free_rec < size] is the statement [used < size] *)
+Lemma Rep_ff_lt t cs fl : Rep t cs fl -> (ht_ff t <? ht_size t) = (ht_used t <? ht_size t).
+Proof.
+  intro R. pose proof (rep_fl _ _ _ R) as Hfl. pose proof (rep_all _ _ _ R) as Ha.
+  pose proof (rep_used _ _ _ R) as Hu. rewrite app_length in Ha.
+  destruct fl as [|x fl']; cbn in Hfl, Ha.
+  - rewrite Hfl. assert (ht_used t = ht_size t) by lia. rewrite H. now rewrite N.ltb_irrefl.
+  - destruct Hfl as (-> & _). assert (x < ht_size t) by (eapply Rep_in_fl_lt; [exact R|now left]).
+    assert (ht_used t < ht_size t) by lia. apply N.ltb_lt in H, H0. now rewrite H, H0.
+Qed.
+
+Lemma Rep_used_le t cs fl : Rep t cs fl -> ht_used t <= ht_size t.
+Proof.
+  intro R. pose proof (rep_all _ _ _ R) as Ha. pose proof (rep_used _ _ _ R) as Hu.
+  rewrite app_length in Ha. lia.
+Qed.
+
+Lemma Rep_set_resize t cs fl z : Rep t cs fl ->
+  Rep (set_resize t z) cs fl /\ abs (set_resize t z) cs = mkamm z (a_bk (abs t cs)).
+Proof.
+  intro R. split; [|reflexivity]. destruct R. constructor; auto.
+Qed.
+
+Lemma find_rec_abs t cs fl eq h : Rep t cs fl ->
+  exists l, nth_error cs (N.to_nat (bucket t h)) = Some l /\
+    find_rec t eq h = Ok (find (fun i => ematch eq h (ent (ht_recs t) i)) l) /\
+    find (ematch eq h) (a_row (abs t cs) h) =
+      option_map (ent (ht_recs t)) (find (fun i => ematch eq h (ent (ht_recs t) i)) l).
+Proof.
+  intro R. destruct (find_rec_sim _ _ _ eq h R) as (hl & l & H1 & H2 & H3 & H4 & H5).
+  exists l. split; [exact H2|]. split; [exact H5|]. rewrite H4. apply find_map.
+Qed.
+
+Lemma isim_ok wm c mv m i t' cs' fl' r :
+  r = Ok (c, i, t') -> Rep t' cs' fl' -> abs t' cs' = m ->
+  (wm = true -> In i (concat cs') /\ snd (ent (ht_recs t') i) = mv) -> isim wm r (Ok (c, mv, m)).
+Proof. intros. exists i, t', cs', fl'. auto. Qed.
+
+Lemma insert_with_sim grow agrow t cs fl check wm h v :
+  Rep t cs fl ->
+  (forall t1 cs1 fl1 c, Rep t1 cs1 fl1 -> ht_size t1 = ht_size t ->
+                        rsim (grow t1 c) (agrow (abs t1 cs1) c)) ->
+  isim wm (insert_with veq grow t check wm h v) (a_insert_with agrow (abs t cs) check wm h v).
+Proof.
+  intros R Hg. unfold insert_with, a_insert_with.
+  destruct (find_rec_abs _ _ _ (veq true v) h R) as (l & Hl & Hf & Hfa).
+  assert (Hchk : exists o,
+     (if check then find_rec t (veq true v) h else Ok None) = Ok o /\
+     (if check then find (ematch (veq true v) h) (a_row (abs t cs) h) else None) =
+       option_map (ent (ht_recs t)) o /\ (forall i, o = Some i -> In i (concat cs))).
+  { destruct check.
+    - eexists. split; [exact Hf|]. split; [exact Hfa|]. intros i Hi. apply find_some in Hi.
+      eapply In_concat_nth; [exact Hl|tauto].
+    - exists None. repeat split; auto. discriminate. }
+  destruct Hchk as (o & -> & -> & Ho). cbn [bind].
+  destruct o as [i|]; cbn [option_map].
+  { eapply isim_ok; [reflexivity|exact R|reflexivity|]. intros _. split; [now apply Ho|reflexivity]. }
+  rewrite (abs_used _ _ _ R), (abs_size _ _ _ R), <- (Rep_ff_lt _ _ _ R).
+  destruct (ht_ff t <? ht_size t) eqn:Hff; cbn [negb]; [|reflexivity].
+  apply N.ltb_lt in Hff.
+  destruct (insert_core_ok t cs fl h v R Hff)
+    as (r & hl & recs1 & recs2 & hl2 & l1 & fl' & E1 & E2 & E3 & E4 & E5 & Efl & El1 & R1 & A1 & Eri & Iri).
+  rewrite E1. cbn [bind]. rewrite E2. cbn [bind]. rewrite E3. cbn [bind]. rewrite E4. cbn [bind].
+  rewrite E5. cbn [bind].
+  set (t1 := mkht ((ht_used t + 1) mod U32) (ht_size t) (ht_resize t) (r_next r) hl2 recs2) in *.
+  set (cs1 := upd cs (N.to_nat (bucket t h)) (l1 ++ [ht_ff t])) in *.
+  cbn zeta in R1, A1, Iri. change recs2 with (ht_recs t1) in Eri.
+  change (a_rz (abs t cs)) with (ht_resize t).
+  destruct (ht_resize t =? 0) eqn:Hrz0.
+  { eapply isim_ok; [reflexivity|exact R1|exact A1|]. intros _. split; [exact Iri|now rewrite Eri]. }
+  assert (Hpct : pct t1 = a_pct (ht_used t + 1) (ht_size t)).
+  { unfold pct, a_pct, t1. cbn [ht_used ht_size]. pose proof (Rep_used_le _ _ _ R) as Hu.
+    pose proof (Rep_size_bounds _ _ _ R) as Hs. pose proof (rep_used _ _ _ R1) as Hu1.
+    pose proof (Rep_used_le _ _ _ R1) as Hu1'. cbn [ht_used ht_size t1] in Hu1'.
+    rewrite (N.mod_small (ht_used t + 1)); [reflexivity|].
+    apply N.ltb_lt in Hff. rewrite (Rep_ff_lt _ _ _ R) in Hff. apply N.ltb_lt in Hff. unfold U32. lia. }
+  rewrite Hpct. set (pc := a_pct (ht_used t + 1) (ht_size t)).
+  set (rz := if (ht_resize t =? 1) && (LYHT_FIRST_SHRINK_PERCENTAGE <=? pc) then 2 else ht_resize t).
+  destruct (Rep_set_resize t1 cs1 fl' rz R1) as [R2 A2]. rewrite A1 in A2. cbn [a_bk] in A2.
+  destruct ((rz =? 2) && (LYHT_ENLARGE_PERCENTAGE <=? pc)).
+  2:{ eapply isim_ok; [reflexivity|exact R2|exact A2|]. intros _. split; [exact Iri|].
+      change (ht_recs (set_resize t1 rz)) with (ht_recs t1). now rewrite Eri. }
+  specialize (Hg (set_resize t1 rz) cs1 fl' check R2 eq_refl). rewrite A2 in Hg.
+  destruct (agrow _ check) as [m3|e]; cbn [rsim bind] in *.
+  2:{ rewrite Hg. reflexivity. }
+  destruct Hg as (t3 & cs3 & fl3 & -> & R3 & A3). cbn [bind].
+  destruct wm.
+  2:{ eapply isim_ok; [reflexivity|exact R3|exact A3|]. discriminate. }
+  destruct (find_rec_abs _ _ _ (veq false v) h R3) as (l3 & Hl3 & Hf3 & Hfa3).
+  rewrite Hf3. cbn [bind]. rewrite <- A3, Hfa3.
+  destruct (find _ l3) as [j|] eqn:Ej; cbn [option_map]; [|reflexivity].
+  eapply isim_ok; [reflexivity|exact R3|reflexivity|]. intros _. split; [|reflexivity].
+  apply find_some in Ej. eapply In_concat_nth; [exact Hl3|tauto].
+Qed.
+
+(* ------------------------------------------------------------------------------------------ *)
+(* lyht_resize: traversal of the old arrays, the fresh table, the re-insertion                 *)
+(* ------------------------------------------------------------------------------------------ *)
+Lemma collect_all_chains recs : forall hls cs,
+  length hls = length cs ->
+  (forall b hl l, nth_error hls b = Some hl -> nth_error cs b = Some l ->
+     is_chain recs (hl_first hl) l NOREC /\ Forall (fun i => i <> NOREC) l /\
+     (length l < S (length recs))%nat) ->
+  collect_all recs hls = Ok (concat (map (map (ent recs)) cs)).
+Proof.
+  induction hls as [|hl hls IH]; intros [|c cs] Hlen H; cbn in Hlen; try lia; [reflexivity|].
+  cbn [collect_all map concat].
+  destruct (H 0%nat hl c eq_refl eq_refl) as (Hc & Hn & Hl).
+  rewrite (collect_chain_chain recs c _ _ Hc Hn Hl). cbn [bind].
+  rewrite (IH cs); [reflexivity|lia|]. intros b hl' l' H1 H2. apply (H (S b)); auto.
+Qed.
+
+Lemma collect_all_sim t cs fl : Rep t cs fl ->
+  collect_all (ht_recs t) (ht_hl t) = Ok (concat (a_bk (abs t cs))).
+Proof.
+  intro R. unfold abs. cbn [a_bk]. apply collect_all_chains.
+  - rewrite (rep_lh _ _ _ R), (rep_lc _ _ _ R). reflexivity.
+  - intros b hl l H1 H2. destruct (rep_bk _ _ _ R _ _ _ H1 H2) as (Hc & _ & _).
+    destruct (Rep_chain_ne _ _ _ _ _ R H2) as (Hne & Hlen & _). auto.
+Qed.
+
+Lemma concat_repeat_nil {A} n : concat (repeat (@nil A) n) = [].
+Proof. induction n; cbn; auto. Qed.
+
+Lemma nth_error_repeat {A} (x y : A) n b : nth_error (repeat x n) b = Some y -> y = x.
+Proof. intro H. apply nth_error_In in H. now apply repeat_spec in H. Qed.
+
+Lemma init_recs_nxt sz k : (k < N.to_nat sz)%nat ->
+  nxt (init_recs vdef sz) (N.of_nat k) = Some (N.of_nat (S k)).
+Proof.
+  intro H. unfold nxt, init_recs. rewrite Nat2N.id, nth_error_map.
+  rewrite (List.nth_error_nth' _ 0%nat) by now rewrite seq_length. rewrite seq_nth by exact H.
+  cbn. f_equal. lia.
+Qed.
+
+Lemma init_recs_chain sz : forall m k, (k + m <= N.to_nat sz)%nat ->
+  is_chain (init_recs vdef sz) (N.of_nat k) (map N.of_nat (seq k m)) (N.of_nat (k + m)).
+Proof.
+  induction m as [|m IH]; intros k H; cbn [seq map is_chain].
+  - f_equal. lia.
+  - split; [reflexivity|]. exists (N.of_nat (S k)). split; [apply init_recs_nxt; lia|].
+    replace (k + S m)%nat with (S k + m)%nat by lia. apply IH. lia.
+Qed.
+
+Definition size_ok (sz : N) : Prop := (exists k, k <= 31 /\ sz = 2 ^ k) /\ LYHT_MIN_SIZE <= sz.
+
+Lemma init_tab_Rep sz rz : size_ok sz ->
+  Rep (init_tab vdef sz rz) (repeat [] (N.to_nat sz)) (map N.of_nat (seq 0 (N.to_nat sz))) /\
+  abs (init_tab vdef sz rz) (repeat [] (N.to_nat sz)) = mkamm rz (repeat [] (N.to_nat sz)).
+Proof.
+  intros [Hp Hm]. split.
+  - constructor; cbn [init_tab ht_size ht_recs ht_hl ht_used ht_ff]; auto.
+    + unfold init_recs. now rewrite map_length, seq_length.
+    + unfold init_hl. now rewrite repeat_length.
+    + now rewrite repeat_length.
+    + rewrite concat_repeat_nil. cbn [app]. apply FinFun.Injective_map_NoDup; [|apply seq_NoDup].
+      intros x y Hxy. lia.
+    + rewrite concat_repeat_nil. cbn [app]. apply Forall_forall. intros i Hi.
+      apply in_map_iff in Hi. destruct Hi as (k & <- & Hk). apply in_seq in Hk. lia.
+    + rewrite concat_repeat_nil. cbn [app]. now rewrite map_length, seq_length.
+    + intros b hl l H1 H2. apply nth_error_repeat in H1, H2. subst. repeat split; constructor.
+    + pose proof (init_recs_chain sz (N.to_nat sz) 0 ltac:(lia)) as H. cbn [Nat.add] in H.
+      rewrite N2Nat.id in H. exact H.
+    + now rewrite concat_repeat_nil.
+  - unfold abs. cbn [init_tab ht_resize]. f_equal.
+    generalize (ent (ht_recs (init_tab vdef sz rz))). intro f.
+    induction (N.to_nat sz) as [|n IH]; cbn; [reflexivity|]. now rewrite IH.
+Qed.
+
+Lemma reinsert_sim check : forall es t cs fl, Rep t cs fl ->
+  rsim (reinsert (fun t' => insert_inner veq t' check) t es)
+       (a_reinsert (fun m => a_insert_inner m check) (abs t cs) es).
+Proof.
+  induction es as [|e es IH]; intros t cs fl R; cbn [reinsert a_reinsert].
+  - exists t, cs, fl. auto.
+  - pose proof (insert_with_sim (fun _ _ => Err E_FUEL) (fun _ _ => Err E_FUEL) t cs fl check false
+                  (fst e) (snd e) R) as Hs.
+    fold (insert_inner veq t check (fst e) (snd e)) in Hs.
+    fold (a_insert_inner (abs t cs) check (fst e) (snd e)) in Hs.
+    specialize (Hs ltac:(intros; reflexivity)).
+    destruct (a_insert_inner (abs t cs) check (fst e) (snd e)) as [[[c mv] m]|er]; cbn [isim bind] in *.
+    + destruct Hs as (i & t' & cs' & fl' & -> & R' & A' & _). cbn [bind fst snd].
+      destruct (c =? LY_ERR_SUCCESS); [|reflexivity]. rewrite <- A'. exact (IH t' cs' fl' R').
+    + rewrite Hs. reflexivity.
+Qed.
+
+Theorem lyht_resize_sim t cs fl op check : Rep t cs fl -> size_ok (new_size (ht_size t) op) ->
+  rsim (lyht_resize vdef veq t op check) (a_resize (abs t cs) op check).
+Proof.
+  intros R Hs. unfold lyht_resize, resize_with, a_resize.
+  rewrite (collect_all_sim _ _ _ R). cbn [bind]. rewrite (abs_size _ _ _ R).
+  destruct (init_tab_Rep (new_size (ht_size t) op) (ht_resize t) Hs) as [R0 A0].
+  change (a_rz (abs t cs)) with (ht_resize t). rewrite <- A0. exact (reinsert_sim check _ _ _ _ R0).
+Qed.
+
+Lemma size_ok_double sz : size_ok sz -> sz <= 1073741824 -> size_ok (new_size sz Enlarge).
+Proof.
+  intros [(k & Hk & ->) Hm] Hle. unfold new_size, U32.
+  assert (Hk30 : k <= 30).
+  { destruct (N.le_gt_cases k 30) as [H|H]; [exact H|]. exfalso.
+    assert (2 ^ 31 <= 2 ^ k) by (apply N.pow_le_mono_r; lia). change (2 ^ 31) with 2147483648 in H0. lia. }
+  assert (2 ^ k * 2 = 2 ^ (k + 1)) by (rewrite N.pow_add_r; reflexivity).
+  rewrite N.mod_small by lia. split; [|lia]. exists (k + 1). split; [lia|exact H].
+Qed.
+
+Lemma size_ok_half sz : size_ok sz -> LYHT_MIN_SIZE < sz -> size_ok (new_size sz Shrink).
+Proof.
+  intros [(k & Hk & ->) Hm] Hlt. unfold new_size, LYHT_MIN_SIZE in *.
+  assert (Hk4 : 4 <= k).
+  { destruct (N.le_gt_cases 4 k) as [H|H]; [exact H|]. exfalso.
+    assert (2 ^ k <= 2 ^ 3) by (apply N.pow_le_mono_r; lia). change (2 ^ 3) with 8 in H0. lia. }
+  replace k with (N.succ (k - 1)) by lia. rewrite N.pow_succ_r'.
+  rewrite N.mul_comm, N.div_mul by lia. split.
+  - exists (k - 1). split; [lia|reflexivity].
+  - unfold LYHT_MIN_SIZE. change 8 with (2 ^ 3). apply N.pow_le_mono_r; lia.
+Qed.
+
+Lemma Rep_size_ok t cs fl : Rep t cs fl -> size_ok (ht_size t).
+Proof. intro R. split; [apply (rep_pow _ _ _ R)|apply (rep_min _ _ _ R)]. Qed.
+
+(* lyht_insert / lyht_insert_no_check *)
+Theorem insert_sim t cs fl check wm h v : Rep t cs fl -> ht_size t <= 1073741824 ->
+  isim wm (insert vdef veq t check wm h v) (a_insert (abs t cs) check wm h v).
+Proof.
+  intros R Hle. unfold insert, a_insert. apply (insert_with_sim _ _ t cs fl); [exact R|].
+  intros t1 cs1 fl1 c R1 Hs. apply (lyht_resize_sim t1 cs1 fl1); [exact R1|]. rewrite Hs.
+  apply size_ok_double; [now apply (Rep_size_ok _ _ _ R)|exact Hle].
+Qed.
+
+(* ------------------------------------------------------------------------------------------ *)
+(* lyht_remove                                                                                 *)
+(* ------------------------------------------------------------------------------------------ *)
+Lemma remove_first_map_split {A B} (f : A -> B) (p : B -> bool) l1 x l2 :
+  forallb (fun y => negb (p (f y))) l1 = true -> p (f x) = true ->
+  remove_first p (map f (l1 ++ x :: l2)) = map f (l1 ++ l2).
+Proof.
+  induction l1 as [|y l1 IH]; cbn; intros H Hx.
+  - now rewrite Hx.
+  - apply andb_true_iff in H. destruct H as [Hy H]. apply negb_true_iff in Hy. rewrite Hy.
+    f_equal. auto.
+Qed.
+
+Lemma last_cons_ne {A} (x : A) l d : l <> [] -> last (x :: l) d = last l d.
+Proof. destruct l; [congruence|reflexivity]. Qed.
+
+Lemma is_chain_norec_nil recs a l : is_chain recs a l NOREC -> Forall (fun i => i <> NOREC) l ->
+  (a = NOREC <-> l = []).
+Proof.
+  destruct l as [|i l]; cbn; intros H Hn.
+  - tauto.
+  - destruct H as (-> & _). inversion Hn; subst. split; [tauto|discriminate].
+Qed.
+
+Lemma Rep_remove t cs fl h l1 ri l2 hl first' last' recs2 :
+  Rep t cs fl ->
+  nth_error cs (N.to_nat (bucket t h)) = Some (l1 ++ ri :: l2) ->
+  nth_error (ht_hl t) (N.to_nat (bucket t h)) = Some hl ->
+  length recs2 = length (ht_recs t) ->
+  (forall j, In j (concat cs ++ fl) -> ~ In j (l1 ++ ri :: l2) -> nxt recs2 j = nxt (ht_recs t) j) ->
+  (forall j, In j (concat cs) -> j <> ri -> ent recs2 j = ent (ht_recs t) j) ->
+  is_chain recs2 first' (l1 ++ l2) NOREC -> last' = last (l1 ++ l2) NOREC ->
+  nxt recs2 ri = Some (ht_ff t) ->
+  let t1 := mkht ((ht_used t + U32 - 1) mod U32) (ht_size t) (ht_resize t) ri
+                 (upd (ht_hl t) (N.to_nat (bucket t h)) (mkhl first' last')) recs2 in
+  let cs1 := upd cs (N.to_nat (bucket t h)) (l1 ++ l2) in
+  Rep t1 cs1 (ri :: fl) /\
+  abs t1 cs1 = mkamm (ht_resize t)
+                 (upd (a_bk (abs t cs)) (a_bucket (abs t cs) h) (map (ent (ht_recs t)) (l1 ++ l2))) /\
+  ht_used t1 = ht_used t - 1 /\ 1 <= ht_used t.
+Proof.
+  intros R Hl Hhl Hlen Hnx Hent Hch Hlast Hri t1 cs1. subst t1.
+  set (b := N.to_nat (bucket t h)) in *. set (l := l1 ++ ri :: l2) in *.
+  pose proof (Rep_size_bounds _ _ _ R) as Hsz.
+  pose proof (rep_nodup _ _ _ R) as Hnd.
+  assert (Hp0 : Permutation (ri :: concat cs1) (concat cs)).
+  { unfold cs1. apply (concat_upd_remove_perm cs b l1 ri l2 Hl). }
+  assert (Hperm : Permutation (concat cs1 ++ ri :: fl) (concat cs ++ fl)).
+  { rewrite <- Hp0. cbn. apply Permutation_sym, Permutation_middle. }
+  assert (Hl_cs : forall j, In j l -> In j (concat cs)) by (intros j Hj; eapply In_concat_nth; eauto).
+  destruct (Rep_chain_ne _ _ _ _ _ R Hl) as (Hne & _ & Hndl & Hltl).
+  assert (Hri_l : In ri l) by (apply in_or_app; right; now left).
+  assert (Hsub : forall j, In j (l1 ++ l2) -> In j l /\ j <> ri).
+  { intros j Hj. split.
+    - apply in_app_or in Hj. apply in_or_app. destruct Hj; [now left|right; now right].
+    - intros ->. unfold l in Hndl. apply NoDup_remove_2 in Hndl. auto. }
+  assert (Hfl_l : forall j, In j fl -> ~ In j l).
+  { intros j Hj Hj'. eapply NoDup_app_disj; [exact Hnd|apply Hl_cs, Hj'|exact Hj]. }
+  assert (Hlen1 : length (concat cs) = S (length (concat cs1))).
+  { rewrite <- (Permutation_length Hp0). reflexivity. }
+  pose proof (rep_used _ _ _ R) as Hu. pose proof (rep_all _ _ _ R) as Ha. rewrite app_length in Ha.
+  assert (Hu1 : (ht_used t + U32 - 1) mod U32 = ht_used t - 1).
+  { unfold U32 in *. replace (ht_used t + 4294967296 - 1) with (ht_used t - 1 + 1 * 4294967296) by lia.
+    rewrite N.mod_add by lia. apply N.mod_small. lia. }
+  split; [|split; [|split; [exact Hu1|lia]]].
+  - constructor; cbn [ht_size ht_recs ht_hl ht_used ht_ff].
+    + apply (rep_pow _ _ _ R).
+    + apply (rep_min _ _ _ R).
+    + rewrite Hlen. apply (rep_lr _ _ _ R).
+    + rewrite upd_length. apply (rep_lh _ _ _ R).
+    + unfold cs1. rewrite upd_length. apply (rep_lc _ _ _ R).
+    + eapply Permutation_NoDup; [apply Permutation_sym, Hperm|exact Hnd].
+    + eapply Forall_perm; [apply Permutation_sym, Hperm|apply (rep_lt _ _ _ R)].
+    + rewrite (Permutation_length Hperm). apply (rep_all _ _ _ R).
+    + intros b0 hl0 l0 H0 H0'. destruct (Nat.eq_dec b0 b) as [->|Hneb].
+      * rewrite (nth_error_upd_eq' _ _ _ _ Hhl) in H0. unfold cs1 in H0'.
+        rewrite (nth_error_upd_eq' _ _ _ _ Hl) in H0'. inversion H0; inversion H0'; subst.
+        split; [exact Hch|]. split; [reflexivity|].
+        destruct (rep_bk _ _ _ R _ _ _ Hhl Hl) as (_ & _ & Hh). rewrite Forall_forall in *.
+        intros j Hj. destruct (Hsub j Hj) as [Hjl Hjr]. cbn [ht_size ht_recs]. rewrite Hent by auto. auto.
+      * rewrite nth_error_upd_neq in H0 by auto. unfold cs1 in H0'. rewrite nth_error_upd_neq in H0' by auto.
+        pose proof (rep_bk _ _ _ R _ _ _ H0 H0') as Hok.
+        eapply bucket_ok_frame; [exact Hok|reflexivity|]. cbn [ht_recs]. intros j Hj.
+        assert (Hjc : In j (concat cs)) by (eapply In_concat_nth; eauto).
+        assert (Hjl : ~ In j l).
+        { intro Hjl. eapply (concat_nodup_disj cs b0 b); eauto. eapply NoDup_app_l; eauto. }
+        split.
+        -- apply Hnx; auto. apply in_or_app. now left.
+        -- apply Hent; auto. intros ->. auto.
+    + cbn [is_chain]. split; [reflexivity|]. exists (ht_ff t). split; [exact Hri|].
+      eapply is_chain_ext; [|apply (rep_fl _ _ _ R)]. intros j Hj. apply Hnx; auto.
+      apply in_or_app. now right.
+    + rewrite Hu1, Hu, Hlen1. lia.
+  - destruct (abs_row _ _ _ h R) as (hl' & l' & E1 & E2 & _ & E4).
+    rewrite (abs_bucket _ _ _ _ R). fold b. unfold abs. cbn [ht_resize ht_recs a_bk]. f_equal.
+    unfold cs1. rewrite upd_map.
+    assert (Hagree : forall j, In j (concat cs1) -> ent recs2 j = ent (ht_recs t) j).
+    { intros j Hj. assert (Hj' : In j (ri :: concat cs1)) by now right.
+      apply (Permutation_in _ Hp0) in Hj'. apply Hent; auto. intros ->.
+      pose proof (Permutation_NoDup (Permutation_sym Hp0) (NoDup_app_l _ _ Hnd)) as Hn1.
+      inversion Hn1; auto. }
+    transitivity (map (map (ent (ht_recs t))) (upd cs b (l1 ++ l2))).
+    + rewrite <- upd_map. apply map_map_ext_in. exact Hagree.
+    + now rewrite upd_map.
+Qed.
+
+Lemma msim_ok c m t' cs' fl' r :
+  r = Ok (c, t') -> Rep t' cs' fl' -> abs t' cs' = m -> msim r (Ok (c, m)).
+Proof. intros. exists t', cs', fl'. auto. Qed.
+
+Theorem lyht_remove_sim t cs fl h v : Rep t cs fl ->
+  msim (lyht_remove vdef veq t h v) (a_remove (abs t cs) h v).
+Proof.
+  intro R. unfold lyht_remove, a_remove.
+  pose proof (Rep_size_bounds _ _ _ R) as Hsz.
+  destruct (find_rec_sim _ _ _ (veq true v) h R) as (hl & l & Hhl & Hl & Hok & Hrow & Hf).
+  rewrite Hf, Hrow, existsb_map. cbn [bind].
+  destruct (find _ l) as [ri|] eqn:Efind.
+  2:{ apply find_none_existsb in Efind. rewrite Efind. cbn [negb].
+      eapply msim_ok; [reflexivity|exact R|reflexivity]. }
+  rewrite (find_some_existsb _ _ _ Efind). cbn [negb].
+  destruct (find_split _ _ _ Efind) as (l1 & l2 & -> & Hpri & Hl1).
+  set (b := N.to_nat (bucket t h)) in *.
+  destruct Hok as (Hc & Hlast & Hh).
+  destruct (Rep_chain_ne _ _ _ _ _ R Hl) as (Hne & Hlenl & Hndl & Hltl).
+  pose proof (rep_nodup _ _ _ R) as Hnd.
+  assert (Hl_cs : forall j, In j (l1 ++ ri :: l2) -> In j (concat cs)) by (intros j Hj; eapply In_concat_nth; eauto).
+  assert (Hri_l : In ri (l1 ++ ri :: l2)) by (apply in_or_app; right; now left).
+  assert (Hri_l1 : ~ In ri l1) by (apply NoDup_remove_2 in Hndl; intro; apply Hndl, in_or_app; now left).
+  assert (Hri_l2 : ~ In ri l2) by (apply NoDup_remove_2 in Hndl; intro; apply Hndl, in_or_app; now right).
+  assert (Hri_ne : ri <> NOREC) by (rewrite Forall_forall in Hne; now apply Hne).
+  apply rd_Ok in Hhl as Hhl'. rewrite Hhl'. cbn [bind].
+  rewrite (prev_loop_chain (ht_recs t) ri l1 l2 _ _ NOREC Hc Hri_l1 Hri_ne).
+  2:{ now apply Forall_app_l in Hne. }
+  2:{ rewrite app_length in Hlenl. cbn in Hlenl. lia. }
+  cbn [bind].
+  destruct (is_chain_mid _ _ _ _ _ _ Hc) as (nx & Hnx & Hc2).
+  destruct (nxt_rd _ _ _ Hnx) as (r & Hr & Hrn). rewrite Hr. cbn [bind]. rewrite Hrn.
+  assert (Hrilt : (N.to_nat ri < length (ht_recs t))%nat) by (eapply nxt_lt; eauto).
+  assert (Hne2 : Forall (fun i => i <> NOREC) l2).
+  { apply Forall_app_r in Hne. now inversion Hne. }
+  pose proof (is_chain_norec_nil _ _ _ Hc2 Hne2) as Hnx_nil.
+  assert (Hblt : (b < length (ht_hl t))%nat) by (apply nth_error_Some; congruence).
+  assert (Hne_l : forall j, In j (concat cs ++ fl) -> ~ In j (l1 ++ ri :: l2) -> j <> ri).
+  { intros j _ Hj ->. auto. }
+  (* the rest of the function once the new arrays are known *)
+  assert (Hfin : forall first' last' recs2,
+    length recs2 = length (ht_recs t) ->
+    (forall j, In j (concat cs ++ fl) -> ~ In j (l1 ++ ri :: l2) -> nxt recs2 j = nxt (ht_recs t) j) ->
+    (forall j, In j (concat cs) -> j <> ri -> ent recs2 j = ent (ht_recs t) j) ->
+    is_chain recs2 first' (l1 ++ l2) NOREC -> last' = last (l1 ++ l2) NOREC ->
+    nxt recs2 ri = Some (ht_ff t) ->
+    msim
+      (let t1 := mkht ((ht_used t + U32 - 1) mod U32) (ht_size t) (ht_resize t) ri
+                      (upd (ht_hl t) b (mkhl first' last')) recs2 in
+       if (ht_resize t =? 2) && (pct t1 <? LYHT_SHRINK_PERCENTAGE) && (LYHT_MIN_SIZE <? ht_size t)
+       then bind (lyht_resize vdef veq t1 Shrink true) (fun t2 => Ok (LY_ERR_SUCCESS, t2))
+       else Ok (LY_ERR_SUCCESS, t1))
+      (let bk1 := upd (a_bk (abs t cs)) (a_bucket (abs t cs) h)
+                    (remove_first (ematch (veq true v) h) (map (ent (ht_recs t)) (l1 ++ ri :: l2))) in
+       let m1 := mkamm (a_rz (abs t cs)) bk1 in
+       if (a_rz (abs t cs) =? 2) && (a_pct (a_used (abs t cs) - 1) (a_size (abs t cs)) <? LYHT_SHRINK_PERCENTAGE)
+          && (LYHT_MIN_SIZE <? a_size (abs t cs))
+       then bind (a_resize m1 Shrink true) (fun m2 => Ok (LY_ERR_SUCCESS, m2))
+       else Ok (LY_ERR_SUCCESS, m1))).
+  { intros first' last' recs2 G1 G2 G3 G4 G5 G6.
+    destruct (Rep_remove t cs fl h l1 ri l2 hl first' last' recs2 R Hl Hhl G1 G2 G3 G4 G5 G6)
+      as (R1 & A1 & U1 & U2).
+    fold b in R1, A1, U1. cbn zeta.
+    set (t1 := mkht ((ht_used t + U32 - 1) mod U32) (ht_size t) (ht_resize t) ri
+                    (upd (ht_hl t) b (mkhl first' last')) recs2) in *.
+    rewrite (remove_first_map_split (ent (ht_recs t)) _ l1 ri l2 Hl1 Hpri).
+    rewrite (abs_used _ _ _ R), (abs_size _ _ _ R). change (a_rz (abs t cs)) with (ht_resize t).
+    assert (Hpct : pct t1 = a_pct (ht_used t - 1) (ht_size t)).
+    { unfold pct, a_pct. rewrite U1. reflexivity. }
+    rewrite Hpct.
+    destruct ((ht_resize t =? 2) && (a_pct (ht_used t - 1) (ht_size t) <? LYHT_SHRINK_PERCENTAGE)) eqn:Ec;
+      cbn [andb]; [|eapply msim_ok; [reflexivity|exact R1|exact A1]].
+    destruct (LYHT_MIN_SIZE <? ht_size t) eqn:Emin; [|eapply msim_ok; [reflexivity|exact R1|exact A1]].
+    apply N.ltb_lt in Emin.
+    pose proof (lyht_resize_sim t1 _ _ Shrink true R1) as Hs.
+    specialize (Hs (size_ok_half _ (Rep_size_ok _ _ _ R) Emin)).
+    rewrite A1 in Hs.
+    destruct (a_resize _ Shrink true) as [m2|e]; cbn [rsim bind] in *.
+    - destruct Hs as (t2 & cs2 & fl2 & -> & R2 & A2). cbn [bind].
+      eapply msim_ok; [reflexivity|exact R2|exact A2].
+    - rewrite Hs. reflexivity. }
+  destruct (list_snoc_case l1) as [->|(l1' & p & ->)].
+  - (* the record is the first of its chain *)
+    cbn [last app] in *. rewrite N.eqb_refl. cbn [bind].
+    rewrite (wr_Ok _ ri (set_next r (ht_ff t)) Hrilt). cbn [bind].
+    rewrite (wr_Ok _ (bucket t h) _ Hblt). cbn [bind]. fold b.
+    apply Hfin.
+    + apply upd_length.
+    + intros j Hj Hjl. apply nxt_upd_neq. now apply Hne_l.
+    + intros j Hj Hjr. now apply ent_upd_neq.
+    + eapply is_chain_ext; [|exact Hc2]. intros j Hj. apply nxt_upd_neq. intros ->. auto.
+    + destruct (nx =? NOREC) eqn:En.
+      * apply N.eqb_eq in En. apply Hnx_nil in En. now subst l2.
+      * apply N.eqb_neq in En. rewrite Hlast. apply last_cons_ne. intro E. apply En. now apply Hnx_nil.
+    + now rewrite nxt_upd_eq.
+  - (* the record follows p *)
+    assert (Hp_in : In p ((l1' ++ [p]) ++ ri :: l2)).
+    { apply in_or_app. left. apply in_or_app. right. now left. }
+    assert (Hp_ne : p <> NOREC) by (rewrite Forall_forall in Hne; now apply Hne).
+    assert (Hp_ri : p <> ri) by (intros ->; apply Hri_l1; apply in_or_app; right; now left).
+    rewrite last_last. apply N.eqb_neq in Hp_ne as Hp_ne'. rewrite Hp_ne'.
+    pose proof (is_chain_bound _ _ _ _ Hc) as Hbd. rewrite Forall_forall in Hbd.
+    pose proof (Hbd _ Hp_in) as Hplt.
+    destruct (rd_lt _ _ Hplt) as (pr & Hpr). rewrite Hpr. cbn [bind].
+    rewrite (wr_Ok _ p _ Hplt). cbn [bind].
+    set (recs1 := upd (ht_recs t) (N.to_nat p) (set_next pr nx)).
+    assert (Hl1' : length recs1 = length (ht_recs t)) by apply upd_length.
+    rewrite (wr_Ok recs1 ri (set_next r (ht_ff t))) by now rewrite Hl1'. cbn [bind].
+    rewrite (wr_Ok _ (bucket t h) _ Hblt). cbn [bind]. fold b.
+    apply Hfin.
+    + now rewrite upd_length.
+    + intros j Hj Hjl. rewrite nxt_upd_neq by now apply Hne_l. unfold recs1.
+      apply nxt_upd_neq. intros ->. auto.
+    + intros j Hj Hjr. rewrite ent_upd_neq by exact Hjr. unfold recs1.
+      destruct (N.eq_dec j p) as [->|Hjp].
+      * rewrite ent_upd_eq by exact Hplt. cbn. symmetry. now apply rd_ent.
+      * now apply ent_upd_neq.
+    + apply is_chain_app in Hc. destruct Hc as (m' & Hc1 & Hc3). cbn in Hc3. destruct Hc3 as (-> & _).
+      apply is_chain_app. exists nx. split.
+      * eapply is_chain_redirect; [exact Hc1| |].
+        -- intros j Hj. rewrite nxt_upd_neq.
+           2:{ intros ->. apply Hri_l1. apply in_or_app. now left. }
+           unfold recs1. apply nxt_upd_neq. intros ->.
+           apply NoDup_app_l in Hndl. eapply NoDup_app_disj; [exact Hndl|exact Hj|now left].
+        -- rewrite nxt_upd_neq by exact Hp_ri. unfold recs1. now rewrite nxt_upd_eq.
+      * eapply is_chain_ext; [|exact Hc2]. intros j Hj. rewrite nxt_upd_neq by (intros ->; auto).
+        unfold recs1. apply nxt_upd_neq. intros ->.
+        rewrite <- app_assoc in Hndl. apply NoDup_app_r in Hndl. cbn in Hndl.
+        inversion Hndl as [|? ? Hx _]. apply Hx. now right.
+    + destruct (nx =? NOREC) eqn:En.
+      * apply N.eqb_eq in En. apply Hnx_nil in En. subst l2. rewrite app_nil_r. now rewrite last_last.
+      * apply N.eqb_neq in En. rewrite Hlast.
+        assert (Hl2 : l2 <> []) by (intro E; apply En; now apply Hnx_nil).
+        destruct (list_snoc_case l2) as [E|(l2' & q & ->)]; [contradiction|].
+        rewrite !app_assoc. change (ri :: l2' ++ [q]) with ((ri :: l2') ++ [q]).
+        rewrite !app_assoc. now rewrite !last_last.
+    + rewrite nxt_upd_eq by now rewrite Hl1'. reflexivity.
 Qed.
 End P.
